@@ -41,14 +41,15 @@ UNI_CONFIGS = [('beta',), ('gamma',), ('gaussian',), ('loglaplace',), ('student_
                ('univariate', 'selection-sample')]
 BIV_DATA = {'pos': 0.4, 'strong': 0.8, 'neg': -0.5, 'tau0': 0.0}
 GM_DATA = {'T1': (3, 'mixed', 'rotated', (), 40, 'str'), 'T2': (2, 'equi+', 'normal', (), 90, 'int'),
-           'T3': (3, 'ar1', 'rotated', (1,), 30, 'str'), 'EMPTY': 'empty', 'NAN': 'nan', 'OBJ': 'object'}
+           'T3': (3, 'ar1', 'rotated', (1,), 30, 'str'), 'N3': ('ndarray', (3, 'ar1', 'normal', (), 35, 'plain')),
+           'N2': ('ndarray', (2, 'equi-', 'rotated', (), 30, 'plain')), 'EMPTY': 'empty', 'NAN': 'nan', 'OBJ': 'object'}
 VINE_DATA = {'V1': (3, 'mixed', 'rotated', (), 40, 'plain'), 'V2': (2, 'equi+', 'rotated', (), 40, 'str'),
              'V3': (4, 'ar1', 'normal', (), 50, 'str'), 'EMPTY': 'empty', 'NAN': 'nan'}
 RANDOMISED_BY_DESIGN = {('kde', None, 15, False), ('univariate', 'selection-sample')}
 
 
 def bounds(tier):
-    return {'uni_configs': len(UNI_CONFIGS), 'datasets_per_kind': {'uni': 6, 'biv': 4, 'gm': 6, 'vine': 5},
+    return {'uni_configs': len(UNI_CONFIGS), 'datasets_per_kind': {'uni': 6, 'biv': 4, 'gm': 8, 'vine': 5},
             'depth': {'fast': 3 if tier == 'quick' else 4, 'slow': 2 if tier == 'quick' else 3}, 'poisons': ['nan', 0.0, 0.731, -0.9]}
 
 
@@ -111,6 +112,8 @@ def data_for(kind, name):
         return pd.DataFrame({'a': [1.0, np.nan, 3.0, 4.0], 'b': [2.0, 1.0, 0.5, 3.0]})
     if spec == 'object':
         return pd.DataFrame({'a': ['x', 'y', 'z'], 'b': [1.0, 2.0, 3.0]})
+    if isinstance(spec, tuple) and spec[0] == 'ndarray':
+        return tables.gaussian_copula_table(spec[1])[0].to_numpy()
     return tables.gaussian_copula_table(spec)[0]
 
 
@@ -121,7 +124,10 @@ def obs_spec(kind, cfg, name):
     if kind == 'biv':
         return ('biv', cfg, 1.0)
     if kind == 'gm':
-        return ('gm', cfg, GM_DATA[name])
+        spec = GM_DATA[name]
+        if isinstance(spec, tuple) and spec[0] == 'ndarray':
+            spec = ('ndarray',) + tuple(spec[1])
+        return ('gm', cfg, spec)
     return ('vine', cfg, VINE_DATA[name])
 
 
